@@ -61,6 +61,13 @@ type MapObj struct {
 }
 type PoisonV struct{ Why string }
 
+// ChanV is a buffered channel used sequentially (non-blocking operations only).
+type ChanV struct{ C *ChanObj }
+type ChanObj struct {
+	capacity int
+	queue    []Value
+}
+
 // range iterator state for strings / maps
 type IterV struct {
 	Str StrV
@@ -168,7 +175,7 @@ func (ex *Exec) bytesCopyIn(b *BytesNode, dlo, n *Term, src *layer, slo *Term) {
 	}
 	// small concrete copies become per-byte stores (keeps concrete buffers concrete)
 	limit := uint64(64)
-	if ex.eng.concreteCopies {
+	if ex.eng.concreteCopies || ex.concreteCopies {
 		limit = 4096
 	}
 	if n.IsConst() && dlo.IsConst() && slo.IsConst() && n.val <= limit {
@@ -196,7 +203,7 @@ func (ex *Exec) bytesFill(b *BytesNode, guard, lo, hi, v *Term) {
 		return
 	}
 	flimit := uint64(64)
-	if ex.eng.concreteCopies {
+	if ex.eng.concreteCopies || ex.concreteCopies {
 		flimit = 8192
 	}
 	if guard.IsTrue() && lo.IsConst() && hi.IsConst() && hi.val-lo.val <= flimit {
@@ -403,7 +410,7 @@ func (ex *Exec) zero(t types.Type) Value {
 	case *types.Map:
 		return MapV{}
 	case *types.Chan:
-		return PtrV{}
+		return ChanV{}
 	case *types.Tuple:
 		tv := make(TupleV, u.Len())
 		for i := range tv {
@@ -716,6 +723,9 @@ func (ex *Exec) valEq(a, b Value) *Term {
 	case MapV:
 		y := b.(MapV)
 		return tf.Bool(x.M == y.M)
+	case ChanV:
+		y := b.(ChanV)
+		return tf.Bool(x.C == y.C)
 	case FloatV:
 		return tf.Bool(x.F == b.(FloatV).F)
 	}
